@@ -5,7 +5,7 @@ From Coq Require Import List Arith Lia Bool ZArith Sorting.Sorted.
 Import ListNotations.
 From Exmex.Model Require Import Base EvalBinary Lexer Flat Deep.
 From Exmex.Spec Require Import RefSem.
-From Exmex.Proofs Require Import PevFold FlSem Vars DeepSem DeepCompile DeepVars DeepSubs C11Main.
+From Exmex.Proofs Require Import PevFold FlSem Vars DeepSem DeepCompile DeepVars DeepSubs C11Main DeepParse.
 Open Scope nat_scope.
 
 Section DeepOps.
@@ -18,12 +18,11 @@ Hypothesis R_sym : forall a b, R a b -> R b a.
 Hypothesis R_trans : forall a b c, R a b -> R b c -> R a c.
 Hypothesis R_bin : forall k a a' b b', R a a' -> R b b' -> R (binf C k a b) (binf C k a' b').
 Hypothesis R_un : forall k a a', R a a' -> R (unf C k a) (unf C k a').
-Hypothesis Hwf_tb : wf_table tb = true.
 Hypothesis table_assoc : forall k, comm_of tb k = true -> forall a b c, R (binf C k (binf C k a b) c) (binf C k a (binf C k b c)).
-Definition tflagged : dbop -> Prop := table_op (comm_of tb).
+Definition tflagged : dbop -> Prop := from_table tb.
 Lemma flagged_assoc : forall o, tflagged o -> bcomm o = true ->
   forall a b c, R (binf C (bidx o) (binf C (bidx o) a b) c) (binf C (bidx o) a (binf C (bidx o) b c)).
-Proof. intros o [Hc _] Hb. apply table_assoc. apply Hc. exact Hb. Qed.
+Proof. exact (DeepParse.flagged_op_assoc C tb R table_assoc). Qed.
 
 Local Notation ddenN rho := (dden C (nlook rho)).
 
@@ -67,7 +66,7 @@ Proof.
   rewrite (dconsistent_vars tflagged all a' Ca), (dconsistent_vars tflagged all b' Cb), app_nil_r, (sort_strs_double all HS).
   assert (Hlevel : dconsistent tflagged all (DE [DExpr a'; DExpr b'] [o] [] all)).
   { unfold dconsistent. rewrite dwf_unfold. split; [reflexivity|]. split; [reflexivity|]. split.
-    - intros o' [<-|[]]. split; [exact (fun H => H)|]. exact (FlSem.prio_of_range tb Hwf_tb k).
+    - intros o' [<-|[]]. exact (DeepParse.dop_flag tb k Hb).
     - constructor; [exact Ca|]. constructor; [exact Cb|constructor]. }
   destruct (dcompile_ok C R R_refl R_sym R_trans R_bin R_un tflagged flagged_assoc (nlook (fun _ => dflt C)) (indexed all) (is_list all) _ Hlevel)
     as (r & Er & Cr & _).
